@@ -23,6 +23,49 @@ CLAIMED = {
         note="trusted: pyvc encoding, z3/cvc5, PathSum congruence axiom, assumed sub-list contracts of remove_overlapping_solutions/rank_solutions (checked at run time), RDKit",
         technique="contract-based deductive verification (own VC generator, loop/recursion invariants, z3) + exhaustive finite data obligations on the shipped rule databases",
         design="5/C08"),
+    "C01": dict(
+        category="proof",
+        text="Deductive chain: decompose/compare contracts (compare_dicts exact Balance <=> equal total maps), Validator.check (a row becomes solved "
+             "exactly when the comparison says Balance and the carbon label says balanced; reverts and frames), MCSSearch.find / MCSBasedMethod.run / "
+             "predict frames (solved rows are not rewritten) are verified for all row lists from the real source; element table exhaustive for Z=1..118. "
+             "Stages outside the subset (preprocess, RuleBasedMethod.run, joblib maps, post-processing) carry assumed contracts that are monitored at run "
+             "time while the real Balancer runs on crafted + corpus reactions (bounded), where every solved row is re-checked with an independent oracle.",
+        note="trusted: pyvc, z3/cvc5, RDKit as the definition of composition, assumed stage contracts (monitored, not proved); one open known finding (post-processing overwrite)",
+        technique="contract-based deductive verification of the real functions (own VC generator, z3/cvc5) + run-time contract monitors and an independent oracle on bounded pipeline runs",
+        design="5/C01"),
+    "C02": dict(
+        category="other",
+        text="Deductive part: the MCS stage only appends ('prefix + .completion', impute_reaction / MCSBasedMethod.run) and Validator.check only reverts to "
+             "input_reaction. The rule-based stage's string surgery is outside the verified subset, so the property as a whole is decided by a bounded stand-in: "
+             "multiset containment of the given molecules on every row of real pipeline runs.",
+        note="bounded for the rule-based / post-processing stages; one open known finding (marker surgery)",
+        technique="contract-based deductive verification for the append-only stages; bounded stand-in (real pipeline + canonical multiset oracle) for the string surgery",
+        design="5/C02"),
+    "C03": dict(
+        category="proof",
+        text="Deductive: Validator.check with override_unsolved reverts every unsolved row to input_reaction and fills an empty issue; MCSSearch.find leaves every "
+             "unsolved row with an issue key; impute_reaction refuses rows with an issue or reactant-side carbon deficit; MCSBasedMethod.run records the failure text "
+             "and leaves the reaction alone on failure; predict touches only rows of the MCS method. Bounded: the row invariant on real pipeline runs.",
+        note="trusted: pyvc, z3/cvc5, assumed stage contracts (monitored at run time)",
+        technique="contract-based deductive verification of the row-level stage functions + run-time contract monitors on bounded pipeline runs",
+        design="5/C03"),
+    "C04": dict(
+        category="proof",
+        text="Deductive: compare_dicts says Balance exactly for equal total maps; Validator.check labels a row with its method exactly when newly solved; "
+             "find / MCSBasedMethod.run / predict do not touch solved rows; RuleBasedMethod.run's assumed contract (rows comparing Balance keep their reaction) is monitored. "
+             "Bounded: curated balanced reactions, their reversals, doubles and unions, ionic and heavy-element cases through the real Balancer.",
+        note="trusted: pyvc, z3/cvc5, RDKit, assumed stage contracts (monitored)",
+        technique="contract-based deductive verification + bounded pipeline runs with an independent balance oracle",
+        design="5/C04"),
+    "C13": dict(
+        category="proof",
+        text="Deductive: ConfidencePredictor.predict is verified for all row lists and thresholds: rows not attributed to the MCS method are untouched; a scored row "
+             "gets a confidence in [0,1], stays solved exactly when confidence >= threshold and otherwise gets solved=False and the issue text naming the threshold. "
+             "Independence of the confidence from the threshold is a syntactic frame obligation (the threshold is read in exactly two places). Bounded: threshold sweep "
+             "at observed confidences and their float neighbours on the real Balancer.",
+        note="trusted: pyvc, z3/cvc5, assumed contracts of the feature functions / xgboost (values in [0,1], function of the rows)",
+        technique="contract-based deductive verification (loop invariant over the scored sub-list) + syntactic frame check + bounded threshold sweep",
+        design="5/C13"),
 }
 
 checks = []
